@@ -1,4 +1,4 @@
-use crate::internals::stream_controller::*;
+use crate::internals::{function_wrapper::*, stream_controller::*};
 use crate::prelude::*;
 
 #[derive(Clone)]
@@ -6,7 +6,9 @@ pub struct Tap<'a, Item>
 where
   Item: Clone + Send + Sync,
 {
-  tap_observer: Observer<'a, Item>,
+  fn_next: FunctionWrapper<'a, Item, ()>,
+  fn_error: FunctionWrapper<'a, RxError, ()>,
+  fn_complete: FunctionWrapper<'a, (), ()>,
 }
 
 impl<'a, Item> Tap<'a, Item>
@@ -24,12 +26,16 @@ where
     Complete: Fn() + Send + Sync + 'a,
   {
     Tap {
-      tap_observer: Observer::new(next, error, complete),
+      fn_next: FunctionWrapper::new(next),
+      fn_error: FunctionWrapper::new(error),
+      fn_complete: FunctionWrapper::new(move |_| complete()),
     }
   }
 
   pub fn execute(&self, source: Observable<'a, Item>) -> Observable<'a, Item> {
-    let tap_observer = self.tap_observer.clone();
+    let fn_next = self.fn_next.clone();
+    let fn_error = self.fn_error.clone();
+    let fn_complete = self.fn_complete.clone();
     Observable::create(move |s| {
       let sctl = StreamController::new(s);
       let source_next = source.clone();
@@ -38,20 +44,20 @@ where
       let sctl_error = sctl.clone();
       let sctl_complete = sctl.clone();
 
-      let tap_observer_next = tap_observer.clone();
-      let tap_observer_error = tap_observer.clone();
-      let tap_observer_complete = tap_observer.clone();
+      let tap_next = fn_next.clone();
+      let tap_error = fn_error.clone();
+      let tap_complete = fn_complete.clone();
       source_next.inner_subscribe(sctl.new_observer(
         move |_, x: Item| {
-          tap_observer_next.next(x.clone());
+          tap_next.call(x.clone());
           sctl_next.sink_next(x);
         },
         move |_, e| {
-          tap_observer_error.error(e.clone());
+          tap_error.call(e.clone());
           sctl_error.sink_error(e);
         },
         move |serial| {
-          tap_observer_complete.complete();
+          tap_complete.call(());
           sctl_complete.sink_complete(&serial)
         },
       ));
